@@ -194,6 +194,8 @@ def run_tlc(module, cfg, env=None, workers=1, timeout=1800, extra=None, coverage
         e.update({k: str(v) for k, v in env.items()})
     if heap:
         e["JAVA_OPTS"] = heap
+    # TLC creates a directory tlc-<n> in java.io.tmpdir per run: keep it in this run's scratch directory
+    e["JAVA_TOOL_OPTIONS"] = (e.get("JAVA_TOOL_OPTIONS", "") + " -Djava.io.tmpdir=" + d).strip()
     t0 = time.time()
     r = TlcResult()
     try:
